@@ -333,6 +333,22 @@ class Classifier:
                 for (rop, x, y) in rels:
                     if rop == "Lt" and x == idx and (_nl(y), _nl(ops[0])) in eqs:
                         auto = ("guarded", "index < len of a slice whose length was compared equal to this one")
+            if auto is None:
+                # for index in LO..v.len() { v[index] }: the range's upper end is the length of the indexed container;
+                # holds when the container cannot get shorter while the loop runs (a slice, or a vector that this
+                # function never shortens)
+                m_ = re.match(r"^ok\(Range<A>>::next\(IntoIterator::into_iter\(Range::Range\((.*)\)\)\)\)$", idx)
+                if m_:
+                    parts_ = _split_top(m_.group(1))
+                    if len(parts_) == 2 and parts_[1] == ops[0] and parts_[1].startswith("len("):
+                        base_ = parts_[1][4:-1]
+                        shrunk_ = False
+                        for c_ in view(self.ctx, f).calls.values():
+                            if c_.name.split("::")[-1] in ("pop", "truncate", "clear", "remove", "swap_remove", "drain", "split_off", "retain", "dedup") and c_.term["args"]:
+                                if Prov(f).operand(c_.term["args"][0]) == base_:
+                                    shrunk_ = True
+                        if not shrunk_:
+                            auto = ("const/iter", "index drawn from a range whose end is the length of the indexed container, which is not shortened in this function")
         elif kind == "Unwrap":
             callee = s.get("callee", "")
             a = ops[0] if ops else ""
